@@ -268,7 +268,8 @@ def main(argv=None):
         from sim.run import simulate
         from sim.shrink import shrink
         seen_inv = set()
-        os.makedirs(os.path.join(VERIF, "replays"), exist_ok=True)
+        replay_dir = os.environ.get("VERIF_REPLAY_DIR") or os.path.join(VERIF, "replays")
+        os.makedirs(replay_dir, exist_ok=True)
         for row in unmatched:
             inv = row["violation"]["invariant"]
             if inv in seen_inv or len(seen_inv) >= 3:
@@ -287,7 +288,7 @@ def main(argv=None):
                 small = dict(small)
                 small["faults"] = o.get("faults") or []
                 small["fault_plan"] = [] if small["faults"] else small.get("fault_plan", [])
-            path = os.path.join(VERIF, "replays", "%s-%d-%d.json" % (prop, seed, row["run"]))
+            path = os.path.join(replay_dir, "%s-%d-%d.json" % (prop, seed, row["run"]))
             doc = {"property": prop, "violation": v, "pass": so.get("pass"),
                    "log_digest": so.get("digest_fault") if so.get("pass") == "fault" else so.get("digest_ff"),
                    "found": {"seed": seed, "run": row["run"], "tier": tier}, "shrink_evaluations": used,
